@@ -245,6 +245,37 @@ fn lunar_month_weeks(k: usize, cfg: &Cfg, log: &mut Log) {
   }
 }
 
+/// week count of every lunar month x 7 starts (needs only the month's first day and length, so the reform-era
+/// months and the one 28-day month are included): ceil((offset of the 1st + day count) / 7)
+fn lunar_week_counts(k: usize, log: &mut Log) {
+  let seq = lunar_seq();
+  let lm = seq.months[k];
+  if lm.first < FIRST || lm.first + lm.days - 1 > LAST {
+    return;
+  }
+  let mkey = fmt_lym(lm.y, lm.m);
+  log.ev(7);
+  log.count("lunar.week_counts_all_months", 7);
+  if lm.days != 29 && lm.days != 30 {
+    log.count("lunar.week_counts_of_months_not_29_or_30_days", 7);
+  }
+  let r = guard(|| {
+    let m = LunarMonth::from_ym(lm.y as isize, lm.m as isize);
+    (0..7).map(|s| m.get_week_count(s as usize) as i64).collect::<Vec<i64>>()
+  });
+  match r {
+    Ok(got) => {
+      for s in 0..7i64 {
+        let want = (block_start(lm.first + lm.days - 1, s) - block_start(lm.first, s)) / 7 + 1;
+        if got[s as usize] != want {
+          log.violate(format!("C14/lunar-week-count/{}_start{}", mkey, s), "LunarMonth::get_week_count", format!("{} start {}", mkey, s), format!("{}", got[s as usize]), format!("{} ({} days from a weekday-{} day)", want, lm.days, weekday(lm.first)));
+        }
+      }
+    }
+    Err(msg) => log.violate(format!("C14/panic-lunar-month/{}", mkey), "LunarMonth::get_week_count", mkey.clone(), format!("panic: {}", msg), "no panic".into()),
+  }
+}
+
 /// histories: a single-thread sequence of 6..16 week questions on related months (the same month again, the
 /// neighbouring months, the same month in a year that differs by a cycle / power of two or ten / digit, the month
 /// half a year away; civil and lunar mixed, week start kept or changed)
@@ -414,6 +445,8 @@ pub fn run(cfg: &Cfg) -> (Log, Meta) {
     Tier::Thorough => (0..seq.months.len()).filter(|&i| seq.months[i].y % 4 == (cfg.seed % 4) as i64).collect(),
   };
   log.merge(par_range(lunar_idx.len(), 4, |i, l| lunar_month_weeks(lunar_idx[i], cfg, l)));
+  log.merge(par_range(seq.months.len(), 512, |k, l| lunar_week_counts(k, l)));
+  log.floor("lunar.week_counts_all_months", 800_000);
   let nh = cfg.tier.pick(30_000usize, 500_000usize);
   log.merge(par_range(nh, 100, |i, l| history(i, cfg, l)));
   log.floor("history.answers_judged", cfg.tier.pick(200_000, 3_500_000));
@@ -425,7 +458,7 @@ pub fn run(cfg: &Cfg) -> (Log, Meta) {
   log.floor("lunar.leap_months", cfg.tier.pick(200, 300));
   let meta = Meta {
     rule: format!(
-      "every civil month 0001-02..9999-11 x 7 week starts x every index (count, list, first day, start weekday, 7 consecutive days, identity, coverage of the month, refusal of index = count / index 6 / start 7) and every date x {} starts for date->week; stepping by {} step counts in -60..60 and index-in-year from every week of {} months (one seeded start each); lunar months: {} months x 7 starts (count, list, first day, weekday, 7 days, refusal, stepping by 18 step counts for one start); histories: {} seeded single-thread sequences of 6..16 questions (week count, week list, week of a date, next(n), index in year, week count and list of the lunar month around the 15th) on months related to the previous one (same, +-1, +-6, +-12, same month in a year differing by a cycle, a power of two or ten or a digit), week start kept or redrawn. Oracle: weekday (N+1) mod 7 and 7-day blocks intersecting the month. Non-trivial = months starting on Sunday, 28-day months, October 1582, leap lunar months, distinct (month, start, index) step origins.",
+      "every civil month 0001-02..9999-11 x 7 week starts x every index (count, list, first day, start weekday, 7 consecutive days, identity, coverage of the month, refusal of index = count / index 6 / start 7) and every date x {} starts for date->week; stepping by {} step counts in -60..60 and index-in-year from every week of {} months (one seeded start each); lunar months: {} months x 7 starts (count, list, first day, weekday, 7 days, refusal, stepping by 18 step counts for one start), and the week count of every lunar month of years 0..9999 x 7 starts from its first day and length alone (the 28-day month 236-12 and the reform-era months included); histories: {} seeded single-thread sequences of 6..16 questions (week count, week list, week of a date, next(n), index in year, week count and list of the lunar month around the 15th) on months related to the previous one (same, +-1, +-6, +-12, same month in a year differing by a cycle, a power of two or ten or a digit), week start kept or redrawn. Oracle: weekday (N+1) mod 7 and 7-day blocks intersecting the month. Non-trivial = months starting on Sunday, 28-day months, October 1582, leap lunar months, distinct (month, start, index) step origins.",
       cfg.tier.pick(3, 7),
       STEP_SET.len(),
       step_months.len(),
